@@ -89,37 +89,47 @@ Definition src_bytes (h : heap) (s : srcv) : list byte :=
 Definition empty_src : srcv := SrcC (mkC (Some [0%N]) 1).
 
 (* ------------------------------------------------------------------------------------------------ copy_string *)
-Definition copy_string (h : heap) (dst : String) (src : srcv) : heap * String * bool :=
-  (* if (!(src && src->str && src->nbytes)) src = &empty;      (src itself is never NULL in this file) *)
-  let src := if src_null src || (src_n src =? 0) then empty_src else src in
+(* if (!dst->str || dst->is_ref) { dst->str = malloc(src->nbytes); dst->nbytes = src->nbytes; dst->is_ref = 0; } *)
+Definition cs_own (h : heap) (dst : String) (sn : nat) : heap * String :=
+  match str dst with
+  | Some _ =>
+      if is_ref dst
+      then let '(id, h) := malloc_bytes h sn in (h, mkS (Some id) sn false)
+      else (h, dst)
+  | None => let '(id, h) := malloc_bytes h sn in (h, mkS (Some id) sn false)
+  end.
+
+(* if (src->nbytes > dst->nbytes) { str = realloc(dst->str, src->nbytes); dst->str = str; } *)
+Definition cs_grow (h : heap) (id : nat) (dst : String) (sn : nat) : nat * heap :=
+  if nbytes dst <? sn then realloc_bytes h id sn else (id, h).
+
+(* memset(dst->str, 0, dst->nbytes); memcpy(dst->str, src->str, src->nbytes);
+   if (dst->nbytes > 0) dst->str[dst->nbytes - 1] = 0;                         (dst->nbytes = src->nbytes = sn here) *)
+Definition cs_fill (h : heap) (id : nat) (src : srcv) (sn : nat) : heap :=
+  let h := write_prefix h id (repeat 0%N sn) in
+  let h := src_touch h src in
+  let h := write_prefix h id (firstn sn (src_bytes h src)) in
+  if 0 <? sn then write_at h id (sn - 1) 0%N else h.
+
+(* the body of copy_string once `src` points to a non-empty source *)
+Definition copy_string_from (h : heap) (dst : String) (src : srcv) : heap * String * bool :=
   let sn := src_n src in
-  (* if (!dst->str || dst->is_ref) { dst->str = malloc(src->nbytes); dst->nbytes = src->nbytes; dst->is_ref = 0; } *)
-  let '(h, dst) :=
-    match str dst with
-    | Some _ =>
-        if is_ref dst
-        then let '(id, h) := malloc_bytes h sn in (h, mkS (Some id) sn false)
-        else (h, dst)
-    | None => let '(id, h) := malloc_bytes h sn in (h, mkS (Some id) sn false)
-    end in
+  let '(h, dst) := cs_own h dst sn in
   (* CHECK(dst->is_ref == 0); *)
   if is_ref dst then (h, dst, false) else
   match str dst with
   | None => (crash h, dst, false)
   | Some id =>
-      (* if (src->nbytes > dst->nbytes) { str = realloc(dst->str, src->nbytes); dst->str = str; } *)
-      let '(id, h) := if nbytes dst <? sn then realloc_bytes h id sn else (id, h) in
+      let '(id, h) := cs_grow h id dst sn in
       (* dst->nbytes = src->nbytes; *)
       let dst := mkS (Some id) sn (is_ref dst) in
-      (* memset(dst->str, 0, dst->nbytes); *)
-      let h := write_prefix h id (repeat 0%N sn) in
-      (* memcpy(dst->str, src->str, src->nbytes); *)
-      let h := src_touch h src in
-      let h := write_prefix h id (firstn sn (src_bytes h src)) in
-      (* if (dst->nbytes > 0) dst->str[dst->nbytes - 1] = '\0'; *)
-      let h := if 0 <? sn then write_at h id (sn - 1) 0%N else h in
-      (h, dst, true)
+      (cs_fill h id src sn, dst, true)
   end.
+
+Definition copy_string (h : heap) (dst : String) (src : srcv) : heap * String * bool :=
+  (* if (!(src && src->str && src->nbytes)) src = &empty;      (src itself is never NULL in this file) *)
+  let src := if src_null src || (src_n src =? 0) then empty_src else src in
+  copy_string_from h dst src.
 
 (* ------------------------------------------------------------------------------------------------ dimensions *)
 (* storage_properties_dimensions_init (with storage_dimension_array_init inlined) *)
